@@ -32,7 +32,8 @@
     trivially: the edit is the Fitter's); `insertPoint_insert_succeeds_marked_partial` (a node with marks the parent does
     not allow: the Fitter inserts it with those marks dropped — proved for that answer of the Fitter);
     `insertGuard_of_text` / `insertPoint_insert_text_applies` (for a text node the inside-text guard follows from the
-    approval: typing succeeds at every insert point); `insertPoint_marked_through_fitter`;
+    approval: typing succeeds at every insert point); `insertPoint_marked_through_fitter`; `insertPoint_insert_marked_top` (at a top-level insert point the
+    Fitter's run is evaluated exactly, Proofs/FitTopLevel.lean: the node goes in with the disallowed marks dropped);
     `canChangeType_setNodeMarkup_applies` / `…_leaf_applies` (`changeTypeGuard`: the new type accepts the node's children —
     `can_change_type` does not look — and the parent allows the new marks).  Counterexamples
     `insertPoint_needs_guard_marks/_text`, `dropPoint_needs_guard`, `joinPoint_needs_guard`, `canChangeType_needs_guard`.
@@ -2005,6 +2006,21 @@ example : ∃ doc', insMarkSchema.apply (.replace 0 0 ⟨[.elem 2 [] [] []], 0, 
     C01.Valid insMarkSchema doc' :=
   (insertPoint_insert_marked_top insMarkSchema (textStable_of_C _ (by decide)) exDoc 0 2 0 (.elem 2 [] [⟨0, []⟩] [])
     rfl rfl rfl rfl rfl rfl rfl rfl rfl).2
+
+/-- … and one level down, where the Fitter's answer is a hypothesis (`insertPoint_insert_succeeds_marked_partial`): the
+    model's Fitter, kernel-evaluated, on the marked paragraph put in at position 1 (inside the blockquote, which allows no
+    marks here) — again the insertion of the paragraph without the mark -/
+private def insMarkSchema2 : Schema :=
+  { nodes := #[exNT "doc" false false blocksDfa, { exNT "blockquote" false false blocksDfa with markSet := some [] },
+      exNT "paragraph" false true #[⟨true, [(3, 0)]⟩], exNT "text" true false #[⟨true, []⟩]],
+    marks := #[⟨"em", [0], true, []⟩], top := 0, textTy := 3 }
+example : insertPoint insMarkSchema2 exDoc 1 2 = some (some 1) ∧
+    marksAllowedAt insMarkSchema2 exDoc 1 (.elem 2 [] [⟨0, []⟩] []) = false ∧
+    topBoundary insMarkSchema2 exDoc 1 = false ∧
+    strippedAt insMarkSchema2 exDoc 1 (.elem 2 [] [⟨0, []⟩] []) = .elem 2 [] [] [] := ⟨rfl, rfl, rfl, rfl⟩
+example : (match replaceStep insMarkSchema2 exDoc 1 1 ⟨[.elem 2 [] [⟨0, []⟩] []], 0, 0⟩ with
+     | .ok (some (.replace 1 1 sl' false)) => sl' == ⟨[.elem 2 [] [] []], 0, 0⟩
+     | _ => false) = true := by decide +kernel
 
 /-! ### INSERT-END -/
 
